@@ -31,8 +31,36 @@ class St(Deck):
     pass
 
 
-def card_state(mn, params, note=''):
+SCALES = [1.0, 100.0, 0.01]
+# indices of the parameters that are lengths (scaled when the whole card is scaled)
+def length_slots(mn, n):
+    if mn in ('px', 'py', 'pz', 'so', 'cx', 'cy', 'cz'):
+        return [0]
+    if mn == 'p' and n == 4:
+        return [3]
+    if mn in ('s', 'tx', 'ty', 'tz'):
+        return list(range(n))
+    if mn in ('sx', 'sy', 'sz', 'c/x', 'c/y', 'c/z'):
+        return list(range(n))
+    if mn in ('k/x', 'k/y', 'k/z'):
+        return [0, 1, 2]
+    if mn in ('kx', 'ky', 'kz'):
+        return [0]
+    if mn in ('x', 'y', 'z'):
+        return list(range(n))
+    return None
+
+
+def card_state(mn, params, note='', scale=1.0):
     st = St('c02 %s' % mn)
+    params = list(params)
+    if scale != 1.0:
+        slots = length_slots(mn, len(params))
+        if slots is None:
+            scale = 1.0
+        else:
+            params = [p * scale if i in slots else p for i, p in enumerate(params)]
+    st.scale = scale
     st.mn, st.params = mn, list(params)
     st.cells = ['1 0 -1 imp:n=1', '2 0 1 imp:n=1']
     st.surfs = ['1 %s %s' % (mn, ' '.join(fmt(x) for x in params))]
@@ -41,12 +69,13 @@ def card_state(mn, params, note=''):
 
 def b_plane(ch):
     mn = ch.choose('mn', ['px', 'py', 'pz', 'p'], free=True)
+    sc = ch.choose('scale', SCALES, free=True)
     if mn != 'p':
-        return card_state(mn, [ch.choose('D', [1.5, -2.0, 0.0, 0.5], free=True)])
+        return card_state(mn, [ch.choose('D', [1.5, -2.0, 0.0, 0.5], free=True)], scale=sc)
     n = [ch.choose('n%d' % i, [1.0, 0.0, -1.0, 0.5, 1e-5], free=True) for i in range(3)]
     if not any(n):
         ch.reject()
-    return card_state('p', n + [ch.choose('D', [1.5, -2.0, 0.0, 0.5], free=True)])
+    return card_state('p', n + [ch.choose('D', [1.5, -2.0, 0.0, 0.5], free=True)], scale=sc)
 
 
 P3_CASES = [
@@ -72,20 +101,22 @@ def b_p3(ch):
 
 def b_sphere(ch):
     mn = ch.choose('mn', ['so', 's', 'sx', 'sy', 'sz'], free=True)
+    sc = ch.choose('scale', SCALES, free=True)
     if mn == 'so':
-        return card_state(mn, [ch.choose('r', R3, free=True)])
+        return card_state(mn, [ch.choose('r', R3, free=True)], scale=sc)
     if mn == 's':
         c = [ch.choose('c%d' % i, C4, free=True) for i in range(3)]
-        return card_state(mn, c + [ch.choose('r', R3, free=True)])
-    return card_state(mn, [ch.choose('c', C4, free=True), ch.choose('r', R3, free=True)])
+        return card_state(mn, c + [ch.choose('r', R3, free=True)], scale=sc)
+    return card_state(mn, [ch.choose('c', C4, free=True), ch.choose('r', R3, free=True)], scale=sc)
 
 
 def b_cyl(ch):
     mn = ch.choose('mn', ['c/x', 'c/y', 'c/z', 'cx', 'cy', 'cz'], free=True)
+    sc = ch.choose('scale', SCALES, free=True)
     if '/' in mn:
         c = [ch.choose('c%d' % i, C4, free=True) for i in range(2)]
-        return card_state(mn, c + [ch.choose('r', R3, free=True)])
-    return card_state(mn, [ch.choose('r', R3, free=True)])
+        return card_state(mn, c + [ch.choose('r', R3, free=True)], scale=sc)
+    return card_state(mn, [ch.choose('r', R3, free=True)], scale=sc)
 
 
 def b_cone(ch):
@@ -98,7 +129,7 @@ def b_cone(ch):
     sh = ch.choose('sheet', SHEET, free=True)
     if sh is not None:
         p.append(sh)
-    return card_state(mn, p)
+    return card_state(mn, p, scale=ch.choose('scale', SCALES, free=True))
 
 
 def b_sq(ch):
@@ -131,7 +162,7 @@ def b_torus(ch):
     A = ch.choose('A', [3.0, 4.0], free=True)
     B = ch.choose('B', [1.0, 0.5, 1.5], free=True)
     C = ch.choose('C', [1.0, 0.5, 2.0], free=True)
-    return card_state(mn, c + [A, B, C])
+    return card_state(mn, c + [A, B, C], scale=ch.choose('scale', [1.0, 100.0], free=True))
 
 
 XYZ_CASES = [
@@ -146,7 +177,7 @@ XYZ_CASES = [
 
 def b_xyz(ch):
     mn = ch.choose('mn', ['x', 'y', 'z'], free=True)
-    return card_state(mn, ch.choose('pairs', XYZ_CASES, free=True))
+    return card_state(mn, ch.choose('pairs', XYZ_CASES, free=True), scale=ch.choose('scale', SCALES, free=True))
 
 
 def scenarios(tier):
@@ -185,7 +216,7 @@ def check_state(scn, st, flip=False):
         return verdict(False, st, cls={'kind': 'locus', 'mn': st.mn},
                        msg='SURF %s is not the zero set of the MCNP equation of %r\n%s'
                        % (unmatched, st.surfs[0], r.body[:600]), out=sha(r.body))
-    P = LAT
+    P = LAT * getattr(st, 'scale', 1.0)
     clear = np.ones(len(P), bool)
     for f, d in ref.comps:
         v = f(P)
